@@ -76,7 +76,8 @@ def all_identities():
     out = []
     for name, tbl in (("std", std), ("msm", msm), ("igs", igs)):
         for ident in tbl:
-            out.append((ident, name))
+            if isinstance(ident, str):  # a key of another type can never be reached (C10 reports it)
+                out.append((ident, name))
     return out
 
 
